@@ -110,16 +110,23 @@ def check(pid: str, tier: str, only: str | None = None, verbose: bool = False) -
     hang_units = []
     for u in decide:
         r = res.get(u["id"], {})
-        for k, inp in enumerate((r.get("abandoned") or [])[:4]):
+        cands = list((r.get("abandoned") or [])[:4])
+        if r.get("last_open") and (r.get("died") or r.get("status") == "TIMEOUT"):
+            cands.append(r["last_open"])    # the inputs the worker was executing when it died / had to be killed
+        for k, inp in enumerate(cands):
             hang_units.append((u, inp, _mk(u, id=f"hang:{u['id']}:{k}", mode="native", inputs=[inp], hard_timeout=60)))
     if hang_units:
         hres = run_units([h[2] for h in hang_units])
         for u, inp, hu in hang_units:
             hr = hres.get(hu["id"], {})
             native_runs += 1
-            if hr.get("status") == "TIMEOUT":
+            crashed = bool(hr.get("died"))
+            balloon = float(hr.get("maxrss_growth_mb") or 0) > 512
+            if hr.get("status") == "TIMEOUT" or crashed or balloon:
+                what = "TIMEOUT" if hr.get("status") == "TIMEOUT" else ("CRASH rc=%s" % hr.get("rc") if crashed else "MEMORY +%s MiB" % hr.get("maxrss_growth_mb"))
+                harness_errors[:] = [h for h in harness_errors if u["id"] not in h]
                 rec = {"property": pid, "unit": {k: u[k] for k in ("id", "module", "fn", "params") if k in u}, "replay_fn": None,
-                       "inputs": inp, "native_result": "TIMEOUT", "message": "path abandoned by the engine on its time limit; native replay did not return within 60 s"}
+                       "inputs": inp, "native_result": what, "message": "path abandoned / worker lost; the native replay of its inputs did not return within 60 s, killed the interpreter, or grew by more than 512 MiB"}
                 d = os.path.join(os.environ.get("VP_REPLAY_DIR") or os.path.join(ROOT, "replays"), pid)
                 os.makedirs(d, exist_ok=True)
                 path = os.path.join(d, sha(rec["unit"] | {"i": rec["inputs"]}) + ".json")
